@@ -1,6 +1,8 @@
 ---- MODULE MC_Context ----
 EXTENDS Context
 SeedsDef == {0, 1, 2, 3, 7, 11, 42, 12345}
-WorldsDef == {"rich", "chain", "errors", "cycle", "typo"}
+WorldsDef == {"rich", "chain", "errors", "cycle", "typo", "lists"}
 PriorOptsDef == {"same", "py310", "win311loose"}
+MeasuredOptsDef == {"default", "oldinf"}
+SlowWorldsDef == {"lists"}
 ====
